@@ -27,7 +27,7 @@ AllTrue(g)   == \A n \in DOMAIN g : g[n]
 FalseOnes(g) == {n \in DOMAIN g : ~g[n]}
 Restrict(f, S) == [x \in S |-> f[x]]
 
-BadAddrs     == {"bad:empty", "bad:notbech32"}
+BadAddrs     == {"bad:empty", "bad:notbech32", "bad:space"}      \* "bad:space": a string of blanks - not empty, not an address
 ValidAddr(a) == a \notin BadAddrs
 Authority    == "opchild"
 
